@@ -777,6 +777,89 @@ func runC04Custom(t *fw.T) {
 	}
 }
 
+// runC04ForkedBuilder: k interceptors of each kind are installed, then a mode setter is called and its return value kept,
+// then one more interceptor is installed through the receiver and one through the returned builder. Whether the setter
+// returns its receiver (as documented: "returns the builder for chaining") or a derived builder, a parser built from
+// either must run exactly the interceptors installed on that builder, once per step, in installation order - and
+// never one that was installed on the other.
+func runC04ForkedBuilder(t *fw.T) {
+	k := t.Index % 9
+	setter := (t.Index / 9) % 4
+	var seen []string
+	mk := func(id string) parser.Interceptor[ast.Expression] {
+		return func(p *parser.Parser, next func() ast.Expression) ast.Expression {
+			if p.CurrentToken.Literal == "probe" {
+				seen = append(seen, id)
+			}
+			return next()
+		}
+	}
+	mkS := func(id string) parser.Interceptor[ast.Statement] {
+		return func(p *parser.Parser, next func() ast.Statement) ast.Statement {
+			seen = append(seen, id)
+			return next()
+		}
+	}
+	wit := func() map[string]any { return map[string]any{"first_stage_interceptors_per_kind": k, "setter": setter} }
+	var pb, pb2 *parser.Builder
+	if !t.Guard("configure", wit, func() {
+		pb = parser.NewBuilder(lexer.NewBuilder())
+		for i := 0; i < k; i++ {
+			pb.UseExpressionInterceptor(mk(fmt.Sprintf("e%d", i)))
+			pb.UseStatementInterceptor(mkS(fmt.Sprintf("s%d", i)))
+		}
+		switch setter {
+		case 0:
+			pb2 = pb.WithTolerantMode(false)
+		case 1:
+			pb2 = pb.WithSmartSemicolon(false)
+		case 2:
+			pb2 = pb.WithTolerantMode(true).WithTolerantMode(false)
+		default:
+			pb2 = pb.WithSmartSemicolon(false).WithTolerantMode(false)
+		}
+		pb.UseExpressionInterceptor(mk("eX"))
+		pb.UseStatementInterceptor(mkS("sX"))
+		pb2.UseExpressionInterceptor(mk("eY"))
+		pb2.UseStatementInterceptor(mkS("sY"))
+	}) {
+		return
+	}
+	same := pb == pb2
+	expect := func(own string) []string {
+		var out []string
+		for _, kind := range []string{"s", "e"} {
+			for i := 0; i < k; i++ {
+				out = append(out, fmt.Sprintf("%s%d", kind, i))
+			}
+			switch {
+			case same:
+				out = append(out, kind+"X", kind+"Y")
+			default:
+				out = append(out, kind+own)
+			}
+		}
+		return out
+	}
+	for _, c := range []struct {
+		b   *parser.Builder
+		own string
+	}{{pb, "X"}, {pb2, "Y"}, {pb, "X"}} {
+		seen = nil
+		if !t.Guard("parse", wit, func() { c.b.Build("probe").ParseProgram() }) {
+			return
+		}
+		t.Count("parsers_built_after_a_mode_setter_between_installations", 1)
+		if want := expect(c.own); !reflect.DeepEqual(seen, want) {
+			w := wit()
+			w["interceptors_run"], w["interceptors_installed_on_this_builder"] = seen, want
+			t.Violate("installation-order", "builder used after a mode setter", fmt.Sprintf("a parser built from a builder on which %d+1 interceptors per kind were installed around a mode-setter call ran %v, installed on it: %v", k, seen, want), w)
+			return
+		}
+	}
+	t.Distinct(fmt.Sprint("fork", k, setter))
+}
+
 var c04DeepShapes = []func(n int) string{
 	func(n int) string { return nest("(", "x", ")", n) },
 	func(n int) string { return nest("[", "1", "]", n) },
@@ -854,6 +937,7 @@ func init() {
 				t.Distinct(src + s.String())
 			}},
 			{Name: "registered-operators", Quick: 6000, Thorough: 40000, Run: runC04Custom},
+			{Name: "builder-after-mode-setter", Quick: 36, Thorough: 36, Exhaustive: true, Run: runC04ForkedBuilder},
 			{Name: "deep-nesting", Quick: 4 * 14 * 4, Thorough: 4 * 14 * 16, Run: runC04Deep},
 			{Name: "large-programs", Quick: 2 * len(gen.BigKinds), Thorough: 8 * len(gen.BigKinds), Run: func(t *fw.T) {
 				prog, kind, n := bigCase(t)
